@@ -1,4 +1,215 @@
-(* C19 — exported theorems only. *)
+(* C19 — exported theorems only: each is closed by [exact] and followed by Print Assumptions. *)
 From Coq Require Import List ZArith Bool.
-From Verif Require Import C19.Model C19.Spec.
+From Verif Require Import C19.Model C19.ModelRsv C19.ModelDev C19.ModelQuota C19.Spec C19.SpecRsv C19.SpecDev
+  C19.SpecQuota C19.Decode
+  C19.Proofs_Codec C19.Proofs_Ledger C19.Proofs_Restart C19.Proofs_Snapshot C19.Proofs_Main
+  C19.Proofs_Excl C19.Proofs_Rsv C19.Proofs_Dev C19.Proofs_DevSnap C19.Proofs_Quota C19.Proofs_QuotaSnap.
+Import ListNotations.
 Open Scope Z_scope.
+
+(* ---- cpuset codec (pkg/util/cpuset String / Parse) ---- *)
+
+(* Parse (String s) = s for every set of legal cpu ids (0..4096) *)
+Theorem c19_cpuset_roundtrip : forall s,
+  Asc s -> (forall x, In x s -> cpu_ok x = true) -> parse (format s) = Some s.
+Proof. exact cpuset_roundtrip. Qed.
+Print Assumptions c19_cpuset_roundtrip.
+
+(* String prints the canonical cpu list: ascending maximal ranges that denote exactly the set *)
+Theorem c19_cpuset_format_canonical : forall s,
+  Asc s -> (forall x, In x s -> 0 <= x) -> Canonical s (format s).
+Proof. exact format_canonical. Qed.
+Print Assumptions c19_cpuset_format_canonical.
+
+(* NewCPUSet of any list (unsorted, duplicates) is the ascending duplicate-free list of its elements *)
+Theorem c19_cpuset_mkset : forall l, Asc (mkset l) /\ forall y, In y (mkset l) <-> In y l.
+Proof. exact (fun l => conj (mkset_Asc l) (mkset_In l)). Qed.
+Print Assumptions c19_cpuset_mkset.
+
+(* the decision procedure the checker runs on the implementation's strings holds of the model for
+   every raw cpu list (in particular: whenever Parse accepts the printed string it returns the set) *)
+Theorem c19_cpuset_code_model : forall raw,
+  (forall x, In x raw -> 0 <= x) ->
+  cpuset_code raw (format (mkset raw)) (parse (format (mkset raw))) = 0.
+Proof. exact cpuset_code_model. Qed.
+Print Assumptions c19_cpuset_code_model.
+
+(* ---- nodenumaresource ledger ---- *)
+
+(* Update (release + addPodAllocation) and Release keep the cache equal to the from-scratch ledger
+   of the allocations it lists (cpu reference counts, per-NUMA amounts, single/shared NUMA marks) *)
+Theorem c19_ledger_update : forall tp ok st node p,
+  Inv tp st -> palloc_ok p -> Inv tp (rm_update tp ok st node p).
+Proof. exact rm_update_Inv. Qed.
+Print Assumptions c19_ledger_update.
+Theorem c19_ledger_release : forall tp st node uid, Inv tp st -> Inv tp (release tp st node uid).
+Proof. exact release_Inv. Qed.
+Print Assumptions c19_ledger_release.
+
+(* for every history of the live scheduler, every cut and every replay script (any order,
+   duplicate adds, update events): the live cache lists exactly the assumed and bound objects, the
+   rebuilt cache lists exactly the bound objects with exactly the values written, and both are the
+   from-scratch ledgers of what they list *)
+Theorem c19_restart : forall c, case_ok c = true -> forall ops script,
+  let l := live_after c ops in
+  let r := replay (c_topo c) (c_nodes c) (c_descs c) (l_life l) true script in
+  Lists (l_st l) (expect_live (c_descs c) (l_life l)) /\ Ledger (c_topo c) (l_st l)
+  /\ Lists r (expect_replay (c_descs c) (l_life l)) /\ Ledger (c_topo c) r.
+Proof. exact restart_caches. Qed.
+Print Assumptions c19_restart.
+
+(* nothing taken by a bound object is free after the restart *)
+Theorem c19_nothing_freed : forall c, case_ok c = true -> forall ops script node cpu,
+  let l := live_after c ops in
+  let r := replay (c_topo c) (c_nodes c) (c_descs c) (l_life l) true script in
+  ns_ref r node cpu = ref_spec (node_pods r node) cpu
+  /\ forall uid, expect_replay (c_descs c) (l_life l) node uid <> None ->
+       exists p, In p (node_pods r node) /\ pa_uid p = uid
+                 /\ (pa_cpus p, pa_numa p) = written (c_descs c) uid.
+Proof. exact nothing_freed. Qed.
+Print Assumptions c19_nothing_freed.
+
+(* the rebuilt ledger is a function of the set of stored objects, not of the delivery order *)
+Theorem c19_replay_order_irrelevant : forall c, case_ok c = true -> forall ops s1 s2 node,
+  let l := live_after c ops in
+  let r1 := replay (c_topo c) (c_nodes c) (c_descs c) (l_life l) true s1 in
+  let r2 := replay (c_topo c) (c_nodes c) (c_descs c) (l_life l) true s2 in
+  (forall uid, listing r1 node uid = listing r2 node uid)
+  /\ (forall cpu, ns_ref r1 node cpu = ns_ref r2 node cpu)
+  /\ (forall n, ns_res r1 node n = ns_res r2 node n)
+  /\ (forall n x, memZ x (ns_single r1 node n) = memZ x (ns_single r2 node n))
+  /\ (forall n x, memZ x (ns_shared r1 node n) = memZ x (ns_shared r2 node n)).
+Proof. exact replay_order_irrelevant. Qed.
+Print Assumptions c19_replay_order_irrelevant.
+
+(* the same, as the decision procedure the checker runs on the implementation's observables:
+   on the model's own run it answers 0 on every case (every history, cut and script) *)
+Theorem c19_numa_restart_core : forall c, case_ok c = true -> prop_numa_core c (run_ncase c) = 0.
+Proof. exact numa_restart_core. Qed.
+Print Assumptions c19_numa_restart_core.
+
+(* with the two hypotheses whose failure are findings 2 and 3 (objects sharing a cpu ask for the same
+   exclusive policy; no Reservation with a cpuset asks for one) the ExclusivePolicy marks survive as
+   well: the complete decision procedure answers 0 on every case *)
+Theorem c19_numa_restart_full : forall c,
+  case_ok c = true -> policies_agree (c_descs c) = true -> rsv_no_excl (c_descs c) = true ->
+  prop_numa c (run_ncase c) = 0.
+Proof. exact numa_restart_full. Qed.
+Print Assumptions c19_numa_restart_full.
+
+(* ---- reservation plugin: ReservationInfo.AssignedPods / Allocated ---- *)
+
+(* with the reservations delivered before the pods: for every history, cut and replay script every
+   reservation's assigned pods are exactly the bound pods annotated with it and Allocated is the sum
+   of their requests, in the live and in the rebuilt cache *)
+Theorem c19_rsv_restart : forall c, rcase_ok c = true -> prop_rsv c (rrun c) = 0.
+Proof. exact rsv_restart. Qed.
+Print Assumptions c19_rsv_restart.
+
+(* ---- deviceshare: allocateSet / deviceUsed (cache level) ---- *)
+
+(* for every history, cut and replay script (wherever the Device objects arrive): the live
+   allocateSet lists the assumed and bound objects' allocations, the rebuilt one exactly the bound
+   objects', and both caches' used amounts are the from-scratch sums of what they list *)
+Theorem c19_dev_restart : forall c, dcase_ok c = true -> forall ops script,
+  let l := dlive_after c ops in
+  let r := dreplay (d_descs c) (dl_life l) script in
+  dlisted (d_descs c) (dl_st l) (dsel (d_descs c) (dl_life l) true) /\ Ledger no_topo (dl_st l)
+  /\ dlisted (d_descs c) r (dsel (d_descs c) (dl_life l) false) /\ Ledger no_topo r.
+Proof. exact dev_restart_caches. Qed.
+Print Assumptions c19_dev_restart.
+
+(* the same as the decision procedure the checker runs on the implementation's observables *)
+Theorem c19_dev_restart_checked : forall c, dcase_ok c = true -> d_minors c <= 1000 -> prop_dev c (drun c) = 0.
+Proof. exact dev_restart. Qed.
+Print Assumptions c19_dev_restart_checked.
+
+(* ---- elastic-quota manager: PodCache / isAssigned / Used (cache level) ---- *)
+
+(* for every history, cut and replay script: the live manager lists every existing pod and marks
+   the assumed, bound and terminated-but-not-deleted ones; the rebuilt manager lists every stored
+   pod and marks exactly the bound non-terminated ones; Used of both is the from-scratch sum of the
+   marked pods' requests *)
+Theorem c19_quota_restart : forall c, qcase_ok c = true -> forall ops script,
+  let l := qlive_after c ops in
+  let r := qreplay (q_descs c) (ql_life l) script in
+  qlisted (q_descs c) (ql_st l) (lex (ql_life l)) (lasg (ql_life l) true) /\ Ledger no_topo (ql_st l)
+  /\ qlisted (q_descs c) r (fun u => qvalid (q_descs c) u && lex (ql_life l) u)
+                           (fun u => qvalid (q_descs c) u && lasg (ql_life l) false u)
+  /\ Ledger no_topo r.
+Proof. exact quota_restart_caches. Qed.
+Print Assumptions c19_quota_restart.
+
+(* the same as the decision procedure the checker runs, which also demands that Used is identical
+   in the live and the rebuilt manager whenever nothing is in flight: holds when no pod is left
+   terminated-but-not-deleted (finding 4 otherwise) *)
+Theorem c19_quota_restart_checked : forall c,
+  qcase_ok c = true -> no_terminated c = true -> prop_quota c (qrun c) = 0.
+Proof. exact quota_restart. Qed.
+Print Assumptions c19_quota_restart_checked.
+
+(* ---- where the faithful model violates the property (findings, replayed on the real code:
+        corpus/C19/numa/finding*.case) ---- *)
+
+(* finding 1: without the hypothesis "topology first" an allocation is lost: the pod's Add event
+   precedes the NodeResourceTopology of its node, Update drops it, nothing re-delivers it *)
+Definition c19_witness_late_topology : ncase :=
+  decode_ncase [1; 4; 4; 0; 1; 0; 1; 0; 2; 0; 1; 0; 2; 1; 1; 3; 1; 2; 1; 1; 4; 1].
+Theorem c19_any_order_with_late_topology_refuted :
+  exists c, forallb desc_ok (c_descs c) = true /\ c_topo_first c = false
+            /\ prop_numa_core c (run_ncase c) = 1.
+Proof. exists c19_witness_late_topology. vm_compute. auto. Qed.
+Print Assumptions c19_any_order_with_late_topology_refuted.
+
+(* finding 2: the ExclusivePolicy mark of a cpu held by objects with different policies is the one
+   of the last writer: same allocations listed, different marks (clause 8) *)
+Definition c19_witness_mixed_policy : ncase :=
+  decode_ncase [1; 4; 4; 1; 2; 0; 1; 2; 1; 0; 0; 0; 1; 1; 1; 0; 0; 4; 1; 1; 3; 1; 1; 2; 3; 2; 2; 1; 2; 1; 1].
+Theorem c19_exclusive_mark_order_refuted :
+  exists c, case_ok c = true /\ prop_numa_core c (run_ncase c) = 0 /\ prop_numa c (run_ncase c) = 8.
+Proof. exists c19_witness_mixed_policy. vm_compute. auto. Qed.
+Print Assumptions c19_exclusive_mark_order_refuted.
+
+(* finding 3: the exclusive policy a Reservation's template asks for is not what the stored
+   Reservation carries: the mark written at Reserve is not read back (clause 7) *)
+Definition c19_witness_reservation_policy : ncase :=
+  decode_ncase [1; 4; 4; 1; 1; 1; 1; 2; 2; 0; 1; 0; 2; 1; 1; 3; 1; 0].
+Theorem c19_reservation_exclusive_policy_refuted :
+  exists c, case_ok c = true /\ policies_agree (c_descs c) = true /\ prop_numa c (run_ncase c) = 7.
+Proof. exists c19_witness_reservation_policy. vm_compute. auto. Qed.
+Print Assumptions c19_reservation_exclusive_policy_refuted.
+
+(* finding 5: a pod delivered before the Reservation it is allocated from is dropped *)
+Definition c19_witness_pod_before_reservation : rcase :=
+  mkRCase 1 false [mkRD 1 1000 1048576] [(1, 1); (3, 1)] [(1, 1); (6, 1)].
+Theorem c19_rsv_any_order_refuted :
+  exists c, forallb (rdesc_ok (r_nr c)) (r_descs c) = true /\ r_first c = false /\ prop_rsv c (rrun c) = 1.
+Proof. exists c19_witness_pod_before_reservation. vm_compute. auto. Qed.
+Print Assumptions c19_rsv_any_order_refuted.
+
+(* finding 4: a terminated pod is charged by the live manager but not by the rebuilt one *)
+Definition c19_witness_terminated_pod : qcase :=
+  mkQCase 1 [mkQD 1 1000 0] [(6, 1); (1, 1); (3, 1); (7, 1)] [].
+Theorem c19_quota_used_identical_refuted :
+  exists c, qcase_ok c = true /\ prop_quota c (qrun c) = 8.
+Proof. exists c19_witness_terminated_pod. vm_compute. auto. Qed.
+Print Assumptions c19_quota_used_identical_refuted.
+
+(* ---- non-vacuity ---- *)
+Example c19_cpuset_example : format [0; 1; 2; 5; 7; 8] = [[0; 2]; [5]; [7; 8]]
+  /\ parse [[0; 2]; [5]; [7; 8]] = Some [0; 1; 2; 5; 7; 8].
+Proof. split; reflexivity. Qed.
+(* the bound 4096 of the round trip is tight: Parse rejects a range ending above it *)
+Example c19_cpuset_limit : parse (format [4096; 4097]) = None.
+Proof. reflexivity. Qed.
+Example c19_case_ok_example :
+  case_ok (mkCase 1 (mkTopo 4 2) [mkPD 0 1 2 [1; 0] [(0, (2000, 1024))]; mkPD 1 1 0 [2] []]
+                  [(1, 1); (3, 1); (1, 2); (3, 2); (7, 1)] true [(1, 2); (2, 1); (1, 2)]) = true.
+Proof. reflexivity. Qed.
+Example c19_rcase_ok_example :
+  rcase_ok (mkRCase 2 true [mkRD 1 1000 1048576; mkRD 2 500 0] [(1, 1); (3, 1); (1, 2)] [(1, 2); (1, 1)]) = true.
+Proof. reflexivity. Qed.
+Example c19_dcase_ok_example :
+  dcase_ok (mkDCase 1 2 (100, 100) (100, 0) true [mkDD 0 1 [(1, [(0, (50, 50))]); (2, [(1, (1, 0))])]]
+                    [(1, 1); (3, 1)] [(4, 1); (1, 1)]) = true.
+Proof. reflexivity. Qed.
